@@ -9,7 +9,7 @@ structure St where
   maxCap : Nat
   pool : List BufId       -- top of the stack = last element
   fresh : BufId           -- next identity `make` would create
-  deriving Repr, BEq, DecidableEq
+  deriving Repr, DecidableEq
 
 /-- `Alloc`: pop the last pooled buffer, or make a new one. -/
 def alloc (s : St) : St × BufId :=
